@@ -117,6 +117,16 @@ CHECKS = {
         "Tandem clause judged only for non-competing rules; display_format names are not parsed.",
         "DESIGN.md 5/C11",
     ),
+    "C12": (
+        "round-trip testing on Hypothesis-generated solution lists: write_decomposition / write_vcf -> parsers written from the README and VCF 4.2 -> compare",
+        "Lists of 1-4 differing solutions (1-4 copies, added and lost variants, SNP/MNP/insertion/deletion alleles) over the toy gene, CYP2D6 and "
+        "generated catalogues with drawn read counts are written by both writers and parsed back: decomposition rows per solution/copy equal "
+        "the carried set (definition + added - lost), one empty row for copies without variants, Coverage/Effect/dbSNP/Major/Minor columns; "
+        "VCF sample columns, per-copy GT, MA/MI naming, one-based POS and REF/ALT judged by applying the record to the genome reference; "
+        "every carried variant has a record. Two recorded findings (D3, D4) are matched by computing the exact table those defects produce.",
+        "REF/ALT clause skipped at sites where the database's own reference allele is inconsistent (toy gene).",
+        "DESIGN.md 5/C12",
+    ),
     "C15": (
         "metamorphic testing on Hypothesis-generated evidence tables: inject / remove sub-threshold observations; independent support predicate",
         "For a planted noisy table of qualifying observations (half of them exactly on the thresholds) two different sets of observations "
